@@ -14,6 +14,11 @@
 (*   kind "checked"   Check; if admitted Start ... End,                       *)
 (*   kind "unchecked" Start ... End without asking (interceptors do this for  *)
 (*                    preferred peers and self-to-self messages).             *)
+(* A task's WORK (validating/saving the intercepted data, resolving the        *)
+(* request) lies between its Start and its End: WorkBegin/WorkEnd steps, `w`   *)
+(* of them per message class (0 for the branches that return early).  The      *)
+(* throttler bounds concurrent WORK only if every work item is inside the      *)
+(* Start/End bracket of its task (Inv_C43_WorkCovered).                        *)
 (* `sub` names the concrete branch of the caller that is taken (which early   *)
 (* return, synchronous or asynchronous EndProcessing); all branches have the  *)
 (* same abstract behaviour -- that is exactly what the replay checks.         *)
@@ -32,14 +37,17 @@ EXTENDS Integers, Sequences, FiniteSets, TLC
 CONSTANTS Threads,
           Maxes,          \* candidate values of max
           Paths,          \* caller paths ("single", "multi", "resolver")
-          KindsOf(_),     \* path -> set of [k, sub] records a thread may get
+          KindsOf(_),     \* path -> set of [k, sub, w] records thread 1 may get
+          OthersOf(_),    \* path -> set of records the other threads may get (= KindsOf for all combinations)
           Sorted,         \* TRUE: thread i+1 gets a kind not smaller than thread i (KindIndex) -- symmetry
           KindIndex(_),   \* [k, sub] -> integer
           KnownDefects,   \* "C43-check-then-start": CanProcess and StartProcessing are separate steps
           Log(_, _)
 
 VARIABLES max, path, kinds,
-          pc,        \* thread -> "idle" | "checked" | "running" | "done"     (control flow of the caller)
+          pc,        \* thread -> "idle" | "checked" | "running" | "working" | "done"     (control flow of the caller)
+          wleft,     \* thread -> work items the task still has to do
+          work,      \* thread -> work items in flight (0/1)
           counter,   \* the throttler's counter
           run,       \* thread -> StartProcessing calls minus EndProcessing calls
           chk,       \* thread -> "none" | "fresh" | "stale": state of its last successful CanProcess
@@ -47,25 +55,28 @@ VARIABLES max, path, kinds,
           quiesced, free,    \* set by Quiesce: how many StartProcessing calls the throttler then admits
           hist
 
-vars  == <<max, path, kinds, pc, counter, run, chk, mode, quiesced, free, hist>>
-cvars == <<max, path, kinds, pc, counter, run, chk, mode, quiesced, free>>
+vars  == <<max, path, kinds, pc, wleft, work, counter, run, chk, mode, quiesced, free, hist>>
+cvars == <<max, path, kinds, pc, wleft, work, counter, run, chk, mode, quiesced, free>>
 
 Admitted == {t \in DOMAIN kinds : run[t] > 0 /\ kinds[t].k = "checked"}     \* running tasks that asked
 Raced    == \E t \in Admitted : mode[t] = "stale"
-St == [counter |-> counter', running |-> Cardinality(Admitted'), raced |-> Raced']
+InFlight == {t \in DOMAIN kinds : work[t] > 0 /\ kinds[t].k = "checked"}   \* admitted tasks whose work is going on
+St == [counter |-> counter', running |-> Cardinality(Admitted'), raced |-> Raced', inflight |-> Cardinality(InFlight')]
 Rec(a, t, out) == [a |-> a, in |-> [t |-> t], out |-> out, st |-> St]
 
 -----------------------------------------------------------------------------
 Init ==
     /\ max \in Maxes /\ path \in Paths
-    /\ kinds \in [Threads -> KindsOf(path)]
+    /\ kinds \in [Threads -> KindsOf(path) \cup OthersOf(path)]
+    /\ \A t \in Threads : kinds[t] \in (IF t = 1 THEN KindsOf(path) ELSE OthersOf(path))
     /\ Sorted => \A a, b \in Threads : a < b => KindIndex(kinds[a]) <= KindIndex(kinds[b])
     /\ pc = [t \in Threads |-> "idle"]
+    /\ wleft = [t \in Threads |-> kinds[t].w] /\ work = [t \in Threads |-> 0]
     /\ counter = 0
     /\ run = [t \in Threads |-> 0] /\ chk = [t \in Threads |-> "none"] /\ mode = [t \in Threads |-> "none"]
     /\ quiesced = FALSE /\ free = 0
     /\ hist = <<[a |-> "New", in |-> [max |-> max, path |-> path, kinds |-> kinds], out |-> [x |-> 0],
-                 st |-> [counter |-> 0, running |-> 0, raced |-> FALSE]]>>
+                 st |-> [counter |-> 0, running |-> 0, raced |-> FALSE, inflight |-> 0]]>>
 
 \* ---- accounting shared by the guarded and the observed variants
 \* CanProcess returned `res`
@@ -90,13 +101,13 @@ DoEnd(t) ==
 Skip(t) ==          \* the message is rejected before the throttler is asked
     /\ pc[t] = "idle" /\ kinds[t].k = "none"
     /\ pc' = [pc EXCEPT ![t] = "done"]
-    /\ UNCHANGED <<max, path, kinds, counter, run, chk, mode, quiesced, free>>
+    /\ UNCHANGED <<max, path, kinds, wleft, work, counter, run, chk, mode, quiesced, free>>
     /\ hist' = Log(hist, Rec("Skip", t, [x |-> 0]))
 
 Check(t) ==
     /\ "C43-check-then-start" \in KnownDefects
     /\ pc[t] = "idle" /\ kinds[t].k = "checked"
-    /\ UNCHANGED <<max, path, kinds, quiesced, free>>
+    /\ UNCHANGED <<max, path, kinds, wleft, work, quiesced, free>>
     /\ LET res == counter < max IN
         /\ DoCheck(t, res)
         /\ pc' = [pc EXCEPT ![t] = IF res THEN "checked" ELSE "done"]
@@ -107,7 +118,7 @@ Start(t) ==
        \/ pc[t] = "idle" /\ kinds[t].k = "unchecked"
     /\ DoStart(t)
     /\ pc' = [pc EXCEPT ![t] = "running"]
-    /\ UNCHANGED <<max, path, kinds, quiesced, free>>
+    /\ UNCHANGED <<max, path, kinds, wleft, work, quiesced, free>>
     /\ hist' = Log(hist, Rec("Start", t, [stale |-> chk[t] = "stale"]))
 
 \* intended design: test and increment in one atomic step
@@ -118,14 +129,30 @@ CheckStart(t) ==
        THEN /\ counter' = counter + 1 /\ run' = [run EXCEPT ![t] = @ + 1]
             /\ mode' = [mode EXCEPT ![t] = "fresh"] /\ pc' = [pc EXCEPT ![t] = "running"]
        ELSE /\ pc' = [pc EXCEPT ![t] = "done"] /\ UNCHANGED <<counter, run, mode>>
-    /\ UNCHANGED <<max, path, kinds, chk, quiesced, free>>
+    /\ UNCHANGED <<max, path, kinds, wleft, work, chk, quiesced, free>>
     /\ hist' = Log(hist, Rec("CheckStart", t, [ok |-> counter < max]))
 
+\* the task's work: between StartProcessing and EndProcessing
+DoWorkBegin(t) == work' = [work EXCEPT ![t] = @ + 1]
+DoWorkEnd(t)   == work' = [work EXCEPT ![t] = @ - 1]
+WorkBegin(t) ==
+    /\ pc[t] = "running" /\ wleft[t] > 0
+    /\ DoWorkBegin(t)
+    /\ pc' = [pc EXCEPT ![t] = "working"]
+    /\ UNCHANGED <<max, path, kinds, wleft, counter, run, chk, mode, quiesced, free>>
+    /\ hist' = Log(hist, Rec("WorkBegin", t, [x |-> 0]))
+WorkEnd(t) ==
+    /\ pc[t] = "working"
+    /\ DoWorkEnd(t)
+    /\ pc' = [pc EXCEPT ![t] = "running"] /\ wleft' = [wleft EXCEPT ![t] = @ - 1]
+    /\ UNCHANGED <<max, path, kinds, counter, run, chk, mode, quiesced, free>>
+    /\ hist' = Log(hist, Rec("WorkEnd", t, [x |-> 0]))
+
 End(t) ==
-    /\ pc[t] = "running"
+    /\ pc[t] = "running" /\ wleft[t] = 0
     /\ DoEnd(t)
     /\ pc' = [pc EXCEPT ![t] = "done"]
-    /\ UNCHANGED <<max, path, kinds, quiesced, free>>
+    /\ UNCHANGED <<max, path, kinds, wleft, work, quiesced, free>>
     /\ hist' = Log(hist, Rec("End", t, [x |-> 0]))
 
 \* all threads are done: how many tasks would the throttler admit now
@@ -134,14 +161,14 @@ Quiesce ==
     /\ ~quiesced
     /\ quiesced' = TRUE /\ free' = max - counter
     /\ hist' = Log(hist, [a |-> "Quiesce", in |-> [t |-> 0], out |-> [free |-> max - counter],
-                          st |-> [counter |-> counter, running |-> Cardinality(Admitted), raced |-> Raced]])
-    /\ UNCHANGED <<max, path, kinds, pc, counter, run, chk, mode>>
+                          st |-> [counter |-> counter, running |-> Cardinality(Admitted), raced |-> Raced, inflight |-> 0]])
+    /\ UNCHANGED <<max, path, kinds, pc, wleft, work, counter, run, chk, mode>>
 
-Next == (\E t \in Threads : Skip(t) \/ Check(t) \/ Start(t) \/ CheckStart(t) \/ End(t)) \/ Quiesce
+Next == (\E t \in Threads : Skip(t) \/ Check(t) \/ Start(t) \/ CheckStart(t) \/ WorkBegin(t) \/ WorkEnd(t) \/ End(t)) \/ Quiesce
 Spec == Init /\ [][Next]_vars
 
 -----------------------------------------------------------------------------
-TypeOK == /\ \A t \in DOMAIN pc : pc[t] \in {"idle", "checked", "running", "done"}
+TypeOK == /\ \A t \in DOMAIN pc : pc[t] \in {"idle", "checked", "running", "working", "done"}
           /\ counter \in Int
 
 \* C43: running tasks that asked the throttler <= max.  FALSE for the protocol as it is (check/check/start/start).
@@ -149,9 +176,13 @@ Inv_C43_Bound == Cardinality(Admitted) <= max
 \* what still holds as it is: tasks whose admission was not overtaken by another start never exceed max
 \* (a violation of THIS one is an overshoot that no interleaving explains)
 Inv_C43_FreshBound == Cardinality({t \in Admitted : mode[t] = "fresh"}) <= max
+\* the work of a task happens inside its Start/End bracket (otherwise the throttler does not bound the work at all)
+Inv_C43_WorkCovered == \A t \in DOMAIN work : work[t] > 0 => run[t] > 0
+\* C43 in terms of the work: admitted work items in flight <= max (FALSE as the code is, for the same race)
+Inv_C43_WorkBound == Cardinality(InFlight) <= max
 \* every StartProcessing is matched by exactly one EndProcessing
 Inv_C43_Balanced  == \A t \in DOMAIN run : run[t] \in {0, 1}
 Inv_C43_Quiescent == quiesced => (free = max /\ \A t \in DOMAIN run : run[t] = 0)
 \* model lemma: the counter is the number of started-and-not-ended tasks
-Inv_Counter == counter = Cardinality({t \in DOMAIN run : run[t] = 1}) /\ \A t \in DOMAIN run : (run[t] = 1) = (pc[t] = "running")
+Inv_Counter == counter = Cardinality({t \in DOMAIN run : run[t] = 1}) /\ \A t \in DOMAIN run : (run[t] = 1) = (pc[t] \in {"running", "working"})
 =============================================================================
